@@ -63,6 +63,10 @@ ExpireSet(s, S) == IF S = {} THEN s ELSE LET o == CHOOSE x \in S : TRUE IN Expir
 \* load of the expired, unmodified attributes from the transaction's view (row must exist)
 LoadObj(s, o) == [s EXCEPT !.v[o] = IF "v" \in s.exp[o] THEN s.work[s.key[o]] ELSE @,
                            !.pk[o] = IF "id" \in s.exp[o] THEN s.key[o] ELSE @, !.exp[o] = {}]
+\* state._load_expired: the attribute set to load (A = what was expired and unmodified when the call began) is fixed BEFORE the
+\* autoflush runs; whatever the flush loaded meanwhile is loaded again from the row as it is afterwards
+LoadAttrs(s, o, A) == [s EXCEPT !.v[o] = IF "v" \in A \cup s.exp[o] THEN s.work[s.key[o]] ELSE @,
+                                !.pk[o] = IF "id" \in A \cup s.exp[o] THEN s.key[o] ELSE @, !.exp[o] = {}]
 \* ------------------------------------------------------------------ ghost reference (user level)
 GApply(base, d) == [k \in Keys |-> IF d[k] = NoHist THEN base[k] ELSE d[k]]
 RECURSIVE GViewUpTo(_, _)
@@ -244,7 +248,10 @@ FlushCore(s0, fk) ==      \* s0 has a transaction; returns R(state, ret)
       Sw(o) == IsSwitch(sA, D, o) /\ ("rsw2" \in Dev \/ FirstOfKey(o))
       switchers == SelectSeq(P, Sw)
       inserts == SelectSeq(P, LAMBDA o : ~Sw(o))
-      dbl == \E i, j \in 1..Len(switchers) : i # j /\ sA.pk[switchers[i]] = sA.pk[switchers[j]]
+      dbl == \/ \E i, j \in 1..Len(switchers) : i # j /\ sA.pk[switchers[i]] = sA.pk[switchers[j]]
+             \* a switching object that was persistent before (back to transient by rollback / make_transient: no attribute history) takes
+             \* the row over without a full UPDATE (none at all, or located by its former key): outside this model, exploration stops
+             \/ \E i \in 1..Len(switchers) : sA.cv[switchers[i]] = NoHist
       switched == {sA.imap[sA.pk[o]] : o \in Range(switchers)}         \* their delete is cancelled (remove_state_actions)
       U == DirtySet(sA)
       updq == switchers \o SeqOfKeys(sA, {o \in U : VChanged(sA, o) \/ PkChanged(sA, o)})
@@ -297,7 +304,7 @@ LoadExpired(s, o) ==
   ELSE LET f == DoFlush(AutoBegin(s)) IN
        IF f.ret # "ok" THEN f
        ELSE LET s1 == Sql(f.st, 1) IN
-            IF s1.work[s1.key[o]] = Absent THEN R(s1, "ObjectDeletedError") ELSE R(LoadObj(s1, o), "ok")
+            IF s1.work[s1.key[o]] = Absent THEN R(s1, "ObjectDeletedError") ELSE R(LoadAttrs(s1, o, s.exp[o]), "ok")
 \* the primary key attribute has active history: setting it on an object whose id is not loaded loads first
 \* (state._load_expired with PASSIVE_OFF: autoflush, then one SELECT by identity key)
 DoSetPk(s, o, k) ==
@@ -347,7 +354,7 @@ DoRefresh(s, o) ==
        ELSE IF ~InMapS(f.st, o) /\ "gsw" \notin Dev THEN R(f.st, "InvalidRequestError")   \* re-validated after the autoflush (no SELECT)
        ELSE LET s1 == Sql(AutoBegin(f.st), 1) IN
             IF s1.work[s1.key[o]] = Absent THEN R(s1, "InvalidRequestError")
-            ELSE R(LoadObj(s1, o), "ok")      \* deviation gsw: the autoflush switched the row to another object; o (deleted) is refreshed from it
+            ELSE R(LoadAttrs(s1, o, BothAttrs), "ok")      \* deviation gsw: the autoflush switched the row to another object; o (deleted) is refreshed from it
 \* Session._remove_newly_deleted([o]) for an identity-map entry whose row turned out to be gone
 RemoveNewlyDeleted(s, o) ==
   IF InMapS(s, o) THEN Ev([s EXCEPT !.imap[s.key[o]] = NoObj, !.sdel = @ \ {o}, !.life[o] = "deleted", !.wasdel[o] = TRUE,
@@ -367,8 +374,8 @@ DoGet(s, k) ==
                  IF s1.work[k] = Absent
                  THEN R(Sql(RemoveNewlyDeleted(s1, o), 1), "none")
                  ELSE IF s1.imap[k] # o /\ "gsw" \notin Dev     \* the autoflush switched the row to another object
-                 THEN R(Sql(s1, 1), IF s1.imap[k] = NoObj THEN "new" ELSE "obj:" \o s1.imap[k])
-                 ELSE R(LoadObj(s1, o), "obj:" \o o)               \* deviation gsw: the deleted object is refreshed from the other object's row and returned
+                 THEN R(Sql(LoadAttrs(s1, o, s.exp[o]), 1), IF s1.imap[k] = NoObj THEN "new" ELSE "obj:" \o s1.imap[k])   \* o (deleted) is refreshed, not returned
+                 ELSE R(LoadAttrs(s1, o, s.exp[o]), "obj:" \o o)               \* deviation gsw: the deleted object is refreshed from the other object's row and returned
   ELSE LET f == DoFlush(AutoBegin(s)) IN
        IF f.ret # "ok" THEN f
        ELSE LET s1 == Sql(f.st, 1) IN
